@@ -15,6 +15,10 @@
 
    Partial: only the current schema is modelled; migrations from older versions are an
    abstract function here (the repository's TestMigrationConsistency covers the fixtures).
+   Operations that return an error (store call failing after the manager's checks passed,
+   injected database fault) are the model's [Failed] step: nothing changes; that the code
+   really leaves nothing behind is C09's subject and is checked here by the correspondence
+   and the before/after-restart monitors on histories that contain such operations.
    "No open budget/updater": a budget that is open at the stop is lost with the process in
    the code as well (its reservation is in memory only); the theorem is about stops
    between operations. *)
